@@ -446,7 +446,25 @@ def run_target(target, findings=(), seed=0, do_diff=True):
         ctx = SymCtx(target, path)
         path.ctx = ctx
         try:
-            target.body(ctx)
+            try:
+                target.body(ctx)
+            except Unsupported as e:
+                # a loop / recursion / step budget exhausted on a feasible path may be genuine non-termination of the real
+                # code: take a model of the path condition and replay it natively (time limit, RecursionError)
+                msg = str(e)
+                if any(k in msg for k in ("recursion depth exceeded", "not unwound", "step budget", "too long")):
+                    r = smt.check(list(path.pc), rlimit=target.rlimit, use_cvc5=False)
+                    if r.status == "sat":
+                        r = small_model(list(path.pc), r, target.rlimit)
+                        rep = replay_model(target, r.model)
+                        if rep["status"] == "fails":
+                            res["refuted"].append({"obligation": "%s/termination/budget" % target.id,
+                                                   "model": jsonable_model(r.model), "backend": r.backend, "replay": rep,
+                                                   "goal": "terminates within the interpreter's budgets (%s)" % msg[:120],
+                                                   "pc": [show(t)[:200] for t in path.pc[-8:]]})
+                            res["obligations"] += 1
+                            return ("nonterminating",)
+                raise
         finally:
             covers.update(ctx.covers)
             for k, v in ctx.interp.interpreted.items():
@@ -561,7 +579,12 @@ def diff_target(target, seed, n):
             out["mismatches"].append({"values": jsonable_model(a.used), "error": "interpreted run rejected the inputs"})
             continue
         except Unsupported as e:
-            out["mismatches"].append({"values": jsonable_model(a.used), "error": "unsupported in concrete mode: %s" % e})
+            bad = [l for (l, k, ok) in a.checks if not ok]
+            if bad:
+                # the native run already breaks the contract on this input (e.g. unbounded recursion): that is the finding
+                out["contract_failures"].append({"values": jsonable_model(a.used), "failed": bad})
+            else:
+                out["mismatches"].append({"values": jsonable_model(a.used), "error": "unsupported in concrete mode: %s" % e})
             continue
         except Exception as e:
             out["mismatches"].append({"values": jsonable_model(a.used), "error": "interpreter crashed: %r" % e,
